@@ -329,6 +329,17 @@ def native_witness(kinds_dims, n_obs, times, free_sigma, log_scale, seed, filter
     if len(vec_syms) != n:
         return dict(case, what='the posterior has %d parameters, the published layout has %d' % (n, len(vec_syms)), expected=len(vec_syms), observed=n)
 
+    # published names and IDs, position by position (documented formats; the noise realisations are listed per simulated individual,
+    # observable by observable, each in time order -- the order in which __call__ reads them, which the value comparison below pins down)
+    want_names = list(post.get_population_model().get_parameter_names()) + (['Sigma obs%d' % r for r in range(n_obs)] if free_sigma else []) + ['par%d' % c_ for c_ in lay.hdims] * n_s + \
+        ['obs%d Epsilon time %d' % (r, t + 1) for r in range(n_obs) for t in range(n_times)] * n_s
+    want_ids = [None] * n_top + [i_ for s_ in range(n_s) for i_ in ['Sim. %d' % (s_ + 1)] * lay.h] + [i_ for s_ in range(n_s) for i_ in ['Sim. %d' % (s_ + 1)] * (n_obs * n_times)]
+    if list(names) != want_names:
+        bad = [k_ for k_, (a_, b_) in enumerate(zip(names, want_names)) if a_ != b_]
+        return dict(case, what='position %s is published as %r, it controls %r' % (bad[:1], [names[k_] for k_ in bad[:1]], [want_names[k_] for k_ in bad[:1]]), expected=want_names, observed=list(names))
+    if list(post.get_id()) != want_ids:
+        return dict(case, what='the published IDs are %s, the positions belong to %s' % (list(post.get_id()), want_ids), expected=want_ids, observed=list(post.get_id()))
+
     def draw():
         x_ = np.empty(n)
         for k_, sy_ in enumerate(vec_syms):
@@ -367,10 +378,18 @@ def native_witness(kinds_dims, n_obs, times, free_sigma, log_scale, seed, filter
     x0 = draw()
     x1 = draw()
     try:
+        # a second posterior built from the same user objects (filter, models, prior) must not disturb the first one, and is itself the
+        # posterior of the same data
+        sibling = real.PopulationFilterLogPosterior(flt, list(times), Toy(), pop, prior, sigma=None if free_sigma else [0.5 + 0.25 * r for r in range(n_obs)],
+                                                    error_on_log_scale=log_scale, n_samples=n_s, covariates=cov)
         d_code = post(x1) - post(x0)
         d_ref = ref(x1) - ref(x0)
+        d_sib = sibling(x1) - sibling(x0)
     except Exception as ex:
         return dict(case, what='evaluation raises %r' % (ex,), expected='values', observed=repr(ex))
+    if np.isfinite(d_sib) and np.isfinite(d_ref) and not np.isclose(d_sib, d_ref, rtol=1e-8, atol=1e-9):
+        return dict(case, what='a second posterior built from the same filter object gives posterior(x1) - posterior(x0) = %r, the data describe %r' % (d_sib, d_ref),
+                    x0=x0.tolist(), x1=x1.tolist(), expected=float(d_ref), observed=float(d_sib))
     if np.isfinite(d_code) and np.isfinite(d_ref) and not np.isclose(d_code, d_ref, rtol=1e-8, atol=1e-9):
         return dict(case, what='posterior(x1) - posterior(x0) = %r, but prior + population density + noise term + filter term at the sorted times changes by %r' % (d_code, d_ref),
                     x0=x0.tolist(), x1=x1.tolist(), expected=float(d_ref), observed=float(d_code))
